@@ -68,12 +68,15 @@ IsScopeNode(n) == n.k \in {"func", "class"}
 SliceLeaves ==
     CASE Slice = "scope"  -> {Ann("name", TRUE), Leaf("pass")}
       [] Slice = "kinds"  -> {Ann(t, v) : t \in Targets, v \in BOOLEAN} \cup {Leaf("import"), Leaf("expr"), Leaf("pass")}
+      [] Slice = "kinds4" -> {Ann(t, TRUE) : t \in Targets} \cup {Ann("name", FALSE), Leaf("import"), Leaf("pass")}
       [] Slice = "deco"   -> {Leaf("import"), Leaf("pass")}
       [] Slice = "prefix" -> {Ann("name", TRUE), Leaf("pass"), Leaf("import"), Leaf("doc"), Leaf("future")}
       [] OTHER            -> {}
 SliceConts ==
     CASE Slice = "scope"  -> {Func(TRUE, FALSE, <<>>), Func(TRUE, TRUE, <<>>), Func(FALSE, FALSE, <<>>), Class(<<>>), Block("if")}
       [] Slice = "kinds"  -> {Func(a, s, <<>>) : a \in BOOLEAN, s \in BOOLEAN} \cup {Class(<<>>)} \cup {Block(b) : b \in BlockKinds}
+      [] Slice = "kinds4" -> {Func(TRUE, FALSE, <<>>), Func(TRUE, TRUE, <<>>), Func(FALSE, TRUE, <<>>), Class(<<>>),
+                              Block("for"), Block("try"), Block("match")}
       [] Slice = "deco"   -> {Func(TRUE, s, ds) : s \in BOOLEAN, ds \in DecoStacks} \cup {Class(ds) : ds \in DecoStacks}
       [] Slice = "prefix" -> {Func(TRUE, FALSE, <<>>), Class(<<>>)}
       [] OTHER            -> {}
@@ -86,8 +89,8 @@ NoConf      == Conf(FALSE, "-", "-", FALSE)
 IsDefaultConf(c) == c = DefaultConf
 AllConfs == {Conf(p, f, t, o) : p \in BOOLEAN, f \in Places, t \in Places, o \in BOOLEAN}
 SliceConfs ==
-    CASE Slice = "scope"  -> {Conf(p, "LBH", "LAST", TRUE) : p \in BOOLEAN} \cup {DefaultConf}
-      [] Slice = "kinds"  -> {Conf(p, "LBH", "LAST", o) : p \in BOOLEAN, o \in BOOLEAN}
+    CASE Slice = "scope"  -> {Conf(p, "LBH", "LAST", TRUE) : p \in BOOLEAN}
+      [] Slice \in {"kinds", "kinds4"} -> {Conf(p, "LBH", "LAST", TRUE) : p \in BOOLEAN} \cup {DefaultConf}
       [] Slice = "deco"   -> {Conf(TRUE, f, t, TRUE) : f \in Places, t \in Places} \cup {DefaultConf}
       [] Slice = "prefix" -> {DefaultConf, Conf(TRUE, "LBH", "LAST", TRUE)}
       [] Slice = "given"  -> {DefaultConf, Conf(TRUE, "LBH", "LAST", TRUE), Conf(FALSE, "FIRST", "FIRST", TRUE)}
@@ -309,11 +312,12 @@ Init ==
     /\ IF Slice = "given" THEN prog \in Given ELSE prog = <<>>
     /\ pc = "build" /\ conf = NoConf /\ i = 0 /\ scopes = <<>> /\ edits = {} /\ decided = FALSE
 
+Alphabet == SliceLeaves \cup SliceConts
 Next ==
-    \/ \E n \in SliceLeaves \cup SliceConts, dd \in 1 .. MaxDepth : Grow(n, dd)
-    \/ \E c \in SliceConfs : EnterModule(c)
-    \/ Leave \/ PlaceDecorator \/ EnterClass \/ EnterFunc
-    \/ VisitAnnAssign \/ VisitImport \/ VisitOther \/ Finish
+    \/ pc = "build" /\ Slice # "given" /\ \E n \in Alphabet, dd \in 1 .. MaxDepth : Grow(n, dd)
+    \/ pc = "build" /\ \E c \in SliceConfs : EnterModule(c)
+    \/ pc = "walk" /\ (Leave \/ PlaceDecorator \/ EnterClass \/ EnterFunc
+                        \/ VisitAnnAssign \/ VisitImport \/ VisitOther \/ Finish)
 
 Spec == Init /\ [][Next]_vars
 
